@@ -3,6 +3,8 @@ package props
 import (
 	"context"
 	"fmt"
+	"go.sia.tech/core/gateway"
+	"sort"
 	"time"
 
 	"go.sia.tech/core/types"
@@ -66,14 +68,28 @@ func runC12(e *sim.Env) {
 	e.OnCleanup(nw.Shutdown)
 	k := e.Range(2, 5)
 	maxSend := uint64([]int{1, 3, 10, 100}[e.Intn(4)])
+	// 1 run in 4: the drawn topology stays as it is (no peer discovery, no
+	// faults): blocks reach nodes that are not connected to their source only
+	// through the relays
+	static := e.Chance(1, 4)
+	if static {
+		e.Shape("static")
+	}
 	nodeOpts := func() []syncer.Option {
 		// every node has its own timers (real nodes never tick in lockstep)
+		disc := time.Duration(e.Range(500, 5000)) * time.Millisecond
+		if static {
+			disc = 3 * time.Hour
+		}
 		return []syncer.Option{
 			syncer.WithSyncInterval(time.Duration(e.Range(100, 5000)) * time.Millisecond),
-			syncer.WithPeerDiscoveryInterval(time.Duration(e.Range(500, 5000)) * time.Millisecond),
+			syncer.WithPeerDiscoveryInterval(disc),
 			syncer.WithMaxSendBlocks(maxSend),
-			syncer.WithMaxOutboundPeers(e.Range(2, 8)),
-			syncer.WithMaxInboundPeers(e.Range(2, 8)),
+			// never below what the drawn topology needs: a full node refusing a
+			// planned link would leave the network disconnected by configuration
+			// (the caps themselves are C18's subject)
+			syncer.WithMaxOutboundPeers(e.Range(max(2, k-1), 8)),
+			syncer.WithMaxInboundPeers(e.Range(max(2, k-1), 8)),
 		}
 	}
 	var nodes []*netNode
@@ -162,47 +178,92 @@ func runC12(e *sim.Env) {
 	}
 	connect()
 	// faults for a while, then none
-	if e.Chance(2, 3) {
+	if e.Chance(2, 3) && !static {
 		netFaults(e, nw, hosts, time.Duration(e.Range(2, 40))*time.Second)
 		e.Nontrivial = true
 	}
 	nw.HealAll()
 	// bounded liveness: once faults have stopped every node ends on the heaviest valid chain
-	deadline := time.Now().Add(45 * time.Minute)
-	converged := false
-	for time.Now().Before(deadline) {
-		time.Sleep(5 * time.Second)
-		all := true
-		for _, n := range nodes {
-			auditNode(e, "C12", n, tree)
-			if n.s.cm.Tip() != dominant.Index() {
-				all = false
-			}
-		}
-		if all {
-			converged = true
-			break
-		}
-	}
-	for _, n := range nodes {
-		if ps := n.panics(); len(ps) > 0 {
-			e.Violationf("C12.panic", "rpc-handler-panic", "%s recovered a panic in an RPC handler: %s", n.name, ps[0])
-		}
-	}
-	if !converged {
-		var where []string
-		for _, n := range nodes {
-			t := tree.ByID[n.s.cm.Tip().ID]
-			where = append(where, fmt.Sprintf("%s@%s(peers=%d bans=%v)", n.name, t.Describe(), len(n.sy.Peers()), n.ps.banList()))
-		}
-		if e.Verbose {
+	awaitAll := func(goal *gen.Node, what string) {
+		deadline := time.Now().Add(45 * time.Minute)
+		converged := false
+		for time.Now().Before(deadline) {
+			time.Sleep(5 * time.Second)
+			all := true
 			for _, n := range nodes {
-				for _, l := range n.lastLogs(25) {
-					e.Logf("LOG %s: %.300s", n.name, l)
+				auditNode(e, "C12", n, tree)
+				if n.s.cm.Tip() != goal.Index() {
+					all = false
 				}
 			}
+			if all {
+				converged = true
+				break
+			}
 		}
-		e.Violationf("C12.converge", "not-converged:"+topo, "45 simulated minutes after the last fault the nodes (%s topology) have not converged on the heaviest valid chain %s: %v", topo, dominant.Describe(), where)
+		for _, n := range nodes {
+			if ps := n.panics(); len(ps) > 0 {
+				e.Violationf("C12.panic", "rpc-handler-panic", "%s recovered a panic in an RPC handler: %s", n.name, ps[0])
+			}
+		}
+		if !converged {
+			var where []string
+			for _, n := range nodes {
+				t := tree.ByID[n.s.cm.Tip().ID]
+				var ps []string
+				for _, p := range n.sy.Peers() {
+					ps = append(ps, fmt.Sprintf("%s synced=%v err=%v", p.Addr(), p.Synced(), p.Err()))
+				}
+				sort.Strings(ps)
+				where = append(where, fmt.Sprintf("%s@%s(peers=%v bans=%v)", n.name, t.Describe(), ps, n.ps.banList()))
+			}
+			if e.Verbose {
+				for _, n := range nodes {
+					for _, l := range n.lastLogs(25) {
+						e.Logf("LOG %s: %.300s", n.name, l)
+					}
+				}
+			}
+			mode := topo
+			if static {
+				mode += ":static"
+			}
+			e.Violationf("C12.converge", "not-converged:"+what+":"+mode, "45 simulated minutes after %s the nodes (%s topology, static=%v) have not converged on the heaviest valid chain %s: %v", what, topo, static, goal.Describe(), where)
+		}
+	}
+	awaitAll(dominant, "the last fault")
+	// a node finds new blocks and announces them
+	if dominant.L.State.Index.Height >= net.Require() && e.Chance(1, 2) {
+		miner := nodes[e.Intn(len(nodes))]
+		tip := dominant
+		kk := e.Range(1, 4)
+		for i := 0; i < kk; i++ {
+			tip = tree.Extend(e, tip, bo)
+		}
+		if tip.Block.V2 != nil {
+			feed(e, "C12", miner, tip)
+			how := e.Intn(3)
+			if how == 0 && kk == 1 {
+				how = 1 // a lone header that attaches to the tip is only relayed; its outline has to follow
+			}
+			switch how {
+			case 0:
+				// header only, the way a node that has just synced relays its new tip
+				miner.sy.BroadcastV2Header(tip.Block.Header())
+				e.Fault("announce-header-only")
+			case 1:
+				miner.sy.BroadcastV2Header(tip.Block.Header())
+				time.Sleep(time.Duration(e.Range(0, 500)) * time.Millisecond)
+				miner.sy.BroadcastV2BlockOutline(gateway.OutlineBlock(tip.Block, nil, nil))
+				e.Fault("announce-header-then-outline")
+			case 2:
+				miner.sy.BroadcastV2BlockOutline(gateway.OutlineBlock(tip.Block, nil, nil))
+				e.Fault("announce-outline")
+			}
+			e.Logf("%s %s mined %d block(s) up to %s and announced them (mode %d)", time.Now().Format("15:04:05.000"), miner.name, kk, tip.Describe(), how)
+			awaitAll(tip, "a node announced new blocks")
+			e.Probe("late_blocks_propagated")
+		}
 	}
 	e.Probe("converged")
 	e.Nontrivial = true
@@ -215,7 +276,7 @@ var _ = sim.NewEnv
 func init() {
 	register(&Prop{
 		ID: "C12", Run: runC12, Quick: 200, Thorough: 6000, Level: "exploration",
-		Rule:        "one run = drawn network, fork tree (1 run in 8 with a 90-230 block stretch beyond the 100-block request split and the exponential history sample) made dominant, 2-5 real nodes (syncer + gateway + mux + manager) each started on its own branch or interior block, a drawn topology (line, star, ring, clique) and connection order, drawn sync interval / discovery interval / MaxSendBlocks / peer limits, per-connection latency and jitter from a seeded PRNG, and for 2 runs in 3 a phase of partitions, heals and connection resets; after the last fault every node must, within 45 simulated minutes, sit on the unique sufficiently-heaviest valid chain, and the C01 audit must hold on every node at every poll; distinct = (regime, topology, size, fault kinds); all completed runs are non-trivial",
+		Rule:        "one run = drawn network, fork tree (1 run in 8 with a 90-230 block stretch beyond the 100-block request split and the exponential history sample) made dominant, 2-5 real nodes (syncer + gateway + mux + manager) each started on its own branch or interior block, a drawn topology (line, star, ring, clique) and connection order, drawn sync interval / discovery interval / MaxSendBlocks / peer limits, per-connection latency and jitter from a seeded PRNG, and for 2 runs in 3 a phase of partitions, heals and connection resets; 1 run in 4 instead keeps the drawn topology static (no peer discovery, no faults) so that nodes not connected to the source depend on the relays; after the last fault every node must, within 45 simulated minutes, sit on the unique sufficiently-heaviest valid chain; in half of the runs above the require height a drawn node then extends the chain by 1-4 blocks and announces the tip (header only / header then outline / outline only) and all nodes must reach it within the same bound, and the C01 audit must hold on every node at every poll; distinct = (regime, topology, size, fault kinds); all completed runs are non-trivial",
 		Real:        []string{"syncer.Syncer (accept/peer/sync loops, parallel sync, relays)", "go.sia.tech/core/gateway + go.sia.tech/mux (real handshake, encryption, framing)", "chain.Manager + chain.DBStore per node"},
 		Stub:        []string{"network: simnet in-memory TCP (seeded per-connection delays, partitions, resets)", "peer store: harness peerStore with real bans", "disk: simdisk.DB"},
 		Assumptions: []string{"goroutine wake-up order is whatever the single-P runtime produces; it is perturbed per seed through drawn network delays, not chosen event by event", "checkpoint-bootstrapped nodes are not part of this check yet"},
